@@ -587,14 +587,28 @@ def affine_map(rng, anisotropic=True):
     return R @ np.diag(s * g)
 
 
-def mesh_case(rng, kinds=("voxel", "extrusion", "perturbed", "convexcopy")):
-    """One G-mesh case: closed outward oriented mesh with convex faces + facts."""
+def aligned_map(rng):
+    """Axis-aligned map: identity, power-of-two or generic positive diagonal scaling."""
+    u = rng.random()
+    if u < 0.4:
+        return np.eye(3)
+    if u < 0.7:
+        return np.diag(2.0 ** rng.integers(-2, 3, size=3).astype(float))
+    return np.diag(np.exp(rng.uniform(-0.8, 0.8, size=3)))
+
+
+def mesh_case(rng, kinds=("voxel", "extrusion", "perturbed", "convexcopy"), aligned_frac=0.0):
+    """One G-mesh case: closed outward oriented mesh with convex faces + facts.
+    With probability ``aligned_frac`` the solid stays axis aligned (no rotation, lattice
+    translation) -- the degenerate case of winding-number code."""
     kind = str(rng.choice(list(kinds)))
     info = {"kind": kind}
+    aligned = bool(rng.random() < aligned_frac)
+    info["aligned"] = aligned
     if kind == "voxel":
         cells, tname = voxel_cells(rng)
         V0, faces = voxel_mesh(cells)
-        A = affine_map(rng)
+        A = aligned_map(rng) if aligned else affine_map(rng)
         info.update({"cells": cells, "template": tname, "A": A, "genus": genus_from_mesh(len(V0), faces)})
     elif kind == "extrusion":
         for _ in range(50):
@@ -602,7 +616,7 @@ def mesh_case(rng, kinds=("voxel", "extrusion", "perturbed", "convexcopy")):
             if len(xy) <= 16:
                 break
         V0, faces = extrusion_mesh(xy, float(rng.uniform(0.3, 2.0)) * float(np.ptp(xy, axis=0).max()))
-        A = affine_map(rng, anisotropic=False)
+        A = aligned_map(rng) if aligned else affine_map(rng, anisotropic=False)
         info.update({"polykind": pk, "A": A, "genus": 0, "xy": xy})
     elif kind == "perturbed":
         V0, faces = perturbed_hull_mesh(rng)
@@ -621,6 +635,8 @@ def mesh_case(rng, kinds=("voxel", "extrusion", "perturbed", "convexcopy")):
     ratio = float(rng.choice([0.0, 0.1, 1.0, 10.0])) if kind != "convexcopy" else 0.0
     V = V0 @ A.T
     t = random_unit(rng) * ratio * diameter(V)
+    if aligned and kind in ("voxel", "extrusion"):
+        t = np.round(t)
     V = V + t
     info.update({"V": V, "faces": faces, "t": t, "V0": V0, "offset_ratio": ratio, "size": diameter(V)})
     return info
